@@ -184,4 +184,53 @@ Section WithRules.
     if is_incremental t
     then bind (to_cumulative std_desc t) (fun cum => bind (aggregate_cum a cum) (to_incremental std_desc))
     else aggregate_cum a t.
+
+  (* ---------------------------------------------------------------- executable specification *)
+  (* The property stated WITHOUT loops: windows and the evaluation grid in closed form (integer
+     division on day ordinals / month ids).  [agg_spec_b] judges any candidate output. *)
+  Definition window_of (r : resolution) (origin d : Z) : Z * Z :=
+    match r with
+    | RDay q => let k := (d - (origin + 1)) / q in (origin + 1 + k * q, origin + (k + 1) * q)
+    | RMonth q => let o := month_id origin in
+                  let k := (month_id d - (o + 1)) / q in
+                  (month_start (o + 1 + k * q), month_end (o + (k + 1) * q))
+    end.
+  Definition on_grid (r : resolution) (origin e : Z) : bool :=
+    match r with
+    | RDay q => (e - origin) mod q =? 0
+    | RMonth q => is_month_end e && ((month_id e - month_id origin) mod q =? 0)
+    end.
+  Definition to_window (r : resolution) (origin : Z) (c : cell) : cell :=
+    let w := window_of r origin (ps c) in
+    mkCell KCell (fst w) (snd w) (ev c) None (cmeta c) (cvals c).
+  Definition straddles (r : resolution) (origin : Z) (c : cell) : bool :=
+    snd (window_of r origin (ps c)) <? pe c.
+  Definition ref_slice (a : agg_args) (slice : list cell) : result (list cell) :=
+    let kept := match eval_res a with
+                | None => slice
+                | Some r => filter (fun c => on_grid r (eval_origin a) (ev c)) slice
+                end in
+    match period_res a with
+    | None => Ok kept
+    | Some r =>
+        match kept with
+        | [] => Err IndexError
+        | _ :: _ =>
+            let sorted := sort_coords kept in
+            if existsb (straddles r (period_origin a)) sorted then Err TriangleError
+            else map_result (window_cell (summ_premium a))
+                            (groupby coord_eqb coord3 (map (to_window r (period_origin a)) sorted))
+        end
+    end.
+  Definition ref_cum (a : agg_args) (cum : list cell) : result (list cell) :=
+    match map_result (fun g => ref_slice a (snd g)) (groupby meta_pyeq cmeta cum) with
+    | Ok slices => Ok (concat slices)
+    | Err e => Err e
+    end.
+  Definition agg_ref (a : agg_args) (t : list cell) : result (list cell) :=
+    if is_incremental t
+    then bind (to_cumulative std_desc t) (fun cum => bind (ref_cum a cum) (to_incremental std_desc))
+    else ref_cum a t.
+  Definition agg_spec_b (a : agg_args) (t : list cell) (out : result (list cell)) : bool :=
+    result_ueqb (agg_ref a t) out.
 End WithRules.
